@@ -1154,10 +1154,10 @@ class Arithmetic(Expr):
         # check for single ASCII characters
         if self.expr.startswith('\'') and self.expr.endswith('\''):
             c = self.expr[1:-1]
-            c = c.encode('utf-8').decode('unicode_escape')
             try:
+                c = c.encode('utf-8').decode('unicode_escape')
                 return ord(c)
-            except TypeError:
+            except (TypeError, UnicodeDecodeError):
                 raise AssemblerError('invalid char literal in expr: "{}"'.format(self.expr), line)
 
         try:
@@ -2181,7 +2181,11 @@ def lex_tokens(line):
     match = RE_ERROR.match(line.contents)
     if match is not None:
         message = match.group(1)
-        message = message.encode('utf-8').decode('unicode_escape')
+        try:
+            message = message.encode('utf-8').decode('unicode_escape')
+        except UnicodeDecodeError:
+            # not a valid escape sequence: keep the message as written
+            pass
         tokens = ['error', message]
         return LineTokens(line, tokens)
 
